@@ -83,7 +83,17 @@ pub fn decode_history(data: &[u8]) -> History {
             let n = nx().unwrap_or(0) as usize;
             Some(match k % 8 {
                 0 | 1 | 2 => Recipe::Auth { delta: 1 + (k as i64 >> 6), confirmed: k & 8 != 0, port: None, payload_len: 0, fopts: vec![Cmd::Raw(take(n % 16, nx))], frm_cmds: vec![], ack: k & 16 != 0, fpending: k & 32 != 0 },
-                3 | 4 => Recipe::Auth { delta: 1, confirmed: k & 8 != 0, port: Some(0), payload_len: 0, fopts: vec![], frm_cmds: vec![Cmd::Raw(take(n % 48, nx))], ack: false, fpending: false },
+                3 => Recipe::Auth { delta: 1, confirmed: k & 8 != 0, port: Some(0), payload_len: 0, fopts: vec![], frm_cmds: vec![Cmd::Raw(take(n % 48, nx))], ack: false, fpending: false },
+                4 => {
+                    let port = match k >> 6 {
+                        0 => Some(0),
+                        1 => None,
+                        2 => Some(224),
+                        _ => Some(n as u8),
+                    };
+                    let fo = take((n >> 4) % 16, nx);
+                    Recipe::AuthRaw { delta: 1, confirmed: k & 8 != 0, fopts: fo, port, frm: take(n % 40, nx) }
+                }
                 5 => Recipe::Random(take(n % 48, nx)),
                 6 => Recipe::Replay(n as u16 * 256),
                 _ => Recipe::BitFlip { bit: n as u16 * 97, with_cmds: k & 8 != 0 },
@@ -185,13 +195,16 @@ fn run_one(h: &History, st: &mut Stats, class: &str) {
 
 pub fn run(ctx: &mut Ctx) {
     let thorough = ctx.tier == Tier::Thorough;
-    ctx.rule = "(a) exhaustive: every word of length <= 3 (quick, 4 regions) / <= 4 (thorough, 9 regions) over a 13-letter event alphabet (silent uplink; garbage+foreign frame; confirmed downlink; plan narrowed to one channel in the upper half of the table; requests that would empty the plan; data-rate/channel mismatch + DlChannelReq; six queued answers after a bit-flipped frame; replay + oversize; join with CFList; join with wrong-key then all-ones DLSettings/raw CFList in RX2; join timeout; 100 silent uplinks; highest uplink DR) x {nb, async, async+ClassC} x {OTAA, ABP}, each followed by 3 silent uplinks and an answered one; (b) field sweeps: for every handled MAC command every value of every field (LinkADRReq: all 256 DR/TXPower bytes x all 256 Redundancy bytes x mask patterns; RXParamSetupReq: all 256 DLSettings x frequency set; RXTimingSetupReq/TXParamSetupReq/DutyCycleReq: all 256; NewChannelReq: all 256 indices x frequency set x DrRange bytes; DlChannelReq: all 256 indices x frequency set; JoinAccept: all 256 DLSettings x RxDelay 0..15 x CFList classes), in FOpts and in port-0 payload, RX1 and RX2, OTAA and ABP, each followed by 3 silent uplinks and one uplink with an authentic downlink; (c) proptest random histories up to 12 steps mixing every frame recipe incl. >= 90-uplink silences and re-joins; regions x {nb, async, async+ClassC}. Oracle: no panic (catch_unwind), no hang (RNG draw budget per call), joined device still hands frames to the radio. Non-trivial: history with >= 1 authentic downlink carrying MAC commands or a valid JoinAccept that the reference model says is processed; distinct by hash".into();
+    ctx.rule = "(a) exhaustive: every word of length <= 3 (quick, 4 regions) / <= 4 (thorough, 9 regions) over a 14-letter event alphabet (silent uplink; FOpts together with a port-0 payload; garbage+foreign frame; confirmed downlink; plan narrowed to one channel in the upper half of the table; requests that would empty the plan; data-rate/channel mismatch + DlChannelReq; six queued answers after a bit-flipped frame; replay + oversize; join with CFList; join with wrong-key then all-ones DLSettings/raw CFList in RX2; join timeout; 100 silent uplinks; highest uplink DR) x {nb, async, async+ClassC} x {OTAA, ABP}, each followed by 3 silent uplinks and an answered one; (b) field sweeps: for every handled MAC command every value of every field (LinkADRReq: all 256 DR/TXPower bytes x all 256 Redundancy bytes x mask patterns; RXParamSetupReq: all 256 DLSettings x frequency set; RXTimingSetupReq/TXParamSetupReq/DutyCycleReq: all 256; authentic frames of every shape incl. FOpts together with a port-0 payload and commands on ports 224/255; NewChannelReq: all 256 indices x frequency set x DrRange bytes; DlChannelReq: all 256 indices x frequency set; JoinAccept: all 256 DLSettings x RxDelay 0..15 x CFList classes), in FOpts and in port-0 payload, RX1 and RX2, OTAA and ABP, each followed by 3 silent uplinks and one uplink with an authentic downlink; (c) proptest random histories up to 12 steps mixing every frame recipe incl. >= 90-uplink silences and re-joins; regions x {nb, async, async+ClassC}. Oracle: no panic (catch_unwind), no hang (RNG draw budget per call), joined device still hands frames to the radio. Non-trivial: history with >= 1 authentic downlink carrying MAC commands or a valid JoinAccept that the reference model says is processed; distinct by hash".into();
     ctx.assumptions = vec![
         "application inputs stay inside what the API documents: region-defined uplink data rates, port 0 only with empty data, payload <= 242 bytes; everything received is unrestricted".into(),
         "a rejection-sampling loop that draws more than 20000 random numbers in one API call is reported as a hang".into(),
     ];
     let seed = ctx.seed;
-    let regions: Vec<RegionId> = if thorough { REGIONS.to_vec() } else { vec![RegionId::Eu868, RegionId::Us915, RegionId::As923_1, RegionId::Au915] };
+    // field sweeps: every region in both tiers (the quick tier thins the (region, front-end, activation)
+    // combinations); the depth-3 alphabet of the quick tier runs on one region of each family plus two
+    let regions: Vec<RegionId> = REGIONS.to_vec();
+    let regions_alpha: Vec<RegionId> = if thorough { REGIONS.to_vec() } else { vec![RegionId::Eu868, RegionId::Us915, RegionId::As923_1, RegionId::Au915] };
     let fronts = [FrontKind::Async, FrontKind::Nb, FrontKind::AsyncClassC];
     // ---- (b) sweeps
     let mut jobs: Vec<(RegionId, FrontKind, bool, u8)> = vec![];
@@ -262,6 +275,23 @@ pub fn run(ctx: &mut Ctx) {
                         emit(vec![Cmd::DutyCycleReq(v)], st, "sweep-DutyCycleReq");
                         emit(vec![Cmd::Raw(vec![v])], st, "sweep-raw-cid");
                         emit(vec![Cmd::Raw(vec![v, v, v])], st, "sweep-raw-cid");
+                    }
+                    // authentic frames of every shape, including those a conforming sender never builds:
+                    // FOpts together with a port-0 payload, port 0 with application-looking bytes,
+                    // commands on the highest ports, empty payload with a port
+                    let fopts_set: [&[u8]; 5] = [&[], &[0x06], &[0x02, 0x05, 0x01], &[0x0D, 1, 2, 3, 4, 5], &[0x03, 0x51, 0x07, 0x00, 0x01, 0x06, 0x08, 0x02, 0x0A, 0x00, 0x68, 0xE2, 0x8C, 0x06, 0x06]];
+                    let frm_set: [&[u8]; 5] = [&[], &[0x06], &[0x06, 0x0D], &[0x05, 0x23, 0xD2, 0xAD, 0x84, 0x08, 0x03, 0x03, 0x50, 0xFF, 0xFF, 0x00], &[0xFF; 40]];
+                    for fo in fopts_set {
+                        for frm in frm_set {
+                            for port in [None, Some(0u8), Some(1), Some(223), Some(224), Some(255)] {
+                                for confirmed in [false, true] {
+                                    let r = Recipe::AuthRaw { delta: 1, confirmed, fopts: fo.to_vec(), port, frm: frm.to_vec() };
+                                    let slot2 = rng.below(3) == 0;
+                                    let h = base_history(&cfg, *otaa, rng.next_u64(), vec![Step::Send { port: 1, len: 2, confirmed: false, rx: if slot2 { RxPlan::rx2(r) } else { RxPlan::rx1(r) } }]);
+                                    run_one(&h, st, "sweep-raw-authentic-frame");
+                                }
+                            }
+                        }
                     }
                 }
                 5 => {
@@ -342,7 +372,7 @@ pub fn run(ctx: &mut Ctx) {
         }
     });
     // ---- (a) every word up to a bounded depth over the event alphabet
-    crate::props::c04_alpha::run(ctx, &regions, if thorough { 4 } else { 3 });
+    crate::props::c04_alpha::run(ctx, &regions_alpha, if thorough { 4 } else { 3 });
     // ---- (c) random histories
     let cases = ctx.tier.pick(30_000u32, 600_000);
     let nthreads = ctx.threads as u32;
